@@ -1344,6 +1344,7 @@ static inline void myth_entry_point_cleanup(myth_thread_t this_thread) {
 
 static inline int myth_cancel_body(myth_thread_t th) {
   //send cancel request
+  MYTH_VERIF_POINT(35);
   myth_spin_lock_body(&th->lock);
   th->cancelled = 1;
   myth_spin_unlock_body(&th->lock);
@@ -1374,6 +1375,7 @@ static inline int myth_setcanceltype_body(int type,int *oldtype) {
 static inline int myth_is_canceled(myth_thread_t th) {
   int c;
   //Is a thread cancelled?
+  MYTH_VERIF_POINT(36);
   myth_spin_lock_body(&th->lock);
   c = (th->cancel_enabled && th->cancelled) ? 1 : 0;
   myth_spin_unlock_body(&th->lock);
@@ -1385,6 +1387,7 @@ static inline void myth_testcancel_body(void) {
   int c = myth_is_canceled(th);
   if (c) {
     //set return value as cancelled
+    MYTH_VERIF_EV1("Cancelled", VD(th));
     th->result = MYTH_CANCELED;
     //exit
     myth_entry_point_cleanup(th);
